@@ -1,8 +1,18 @@
 //! Engine `svc` (C11, C12): the real `actix-service` combinators over scripted, type-erased leaves,
-//! driven by a manual executor that hands a fresh waker identity to every top-level poll.
+//! driven by a wake-driven manual executor that hands a fresh, wake-counting waker identity to every
+//! top-level poll.  Scripted leaves park a clone of the waker whenever they answer Pending; after
+//! every poll all parked wakers fire; a future is polled again only if the waker of its latest poll
+//! was woken (otherwise `r=stalled`: a lost wake-up) — it is never busy-polled.
 //!
 //! Line protocol (same as lean/Driver/Svc.lean):
 //!   case <name> | svc <S> | fac <F> <cfg> | ready | call <req>
+//!   S ::= (leaf id cp ok|err rp ok|err) | (fn id ok|err) | (map S f) | (maperr S f) | (then S S)
+//!       | (apply pre|short|post k S) | (boxed|rcboxed|rc|refcell|ref|box|refmut S) | (mw S t)
+//!   F ::= (fleaf id ip ok|err cfg|nocfg S) | (ffn id ok|err) | (fmap F f) | (fmaperr F f)
+//!       | (fmapiniterr F f) | (fthen F F) | (fapply kind k F) | (transform t tp ok|err plain|rc|arc F)
+//!       | (transformerr t tp ok|err plain|rc|arc m F) | (applycfg S f ip ok|err)
+//!       | (applycfgfac F f ip ok|err) | (mapconfig F f) | (unitconfig F) | (fboxed F) | (frc F) | (farc F)
+//!   observations: `[events] r=<result> k=<wake-ups received>` (no `k` after a panic)
 #![allow(clippy::type_complexity)]
 use std::{
     cell::{Cell, RefCell},
